@@ -29,7 +29,7 @@ def miri(ctx, prop, mode, features, count, shards, faults="none", gen="random", 
     for i in range(shards):
         # pass-through allocator (Miri judges the frees itself); no state hashing (slow under Miri)
         args = ["--mode", mode, "--gen", gen, "--seed", str(seed), "--count", str(count), "--shard", str(i), "--nshards", str(shards),
-                "--props", prop, "--alloc", "track", "--faults", faults, "--no-state-hash", "--min-ops", "8", "--max-ops", "28"] + list(extra)
+                "--props", prop, "--alloc", "track", "--faults", faults, "--no-state-hash", "--no-bulk", "--min-ops", "8", "--max-ops", "28"] + list(extra)
         name = "miri-%s-%s-%s-%d" % (mode, gen, features.replace(",", "+") or "none", i)
         steps.append(ctx.step(name, "harness", "ccmon", args, features=features, tool="miri", timeout=timeout, crash_property=prop,
                               miri_flags=("-Zmiri-ignore-leaks " + flags).strip()))
